@@ -119,7 +119,8 @@ def gen_default(rng):
 
 PARTIALS = ["HH:MM", "HH:MM:SS", "HHam", "Mon", "Month YYYY", "YYYY",
             "YYYY-MM", "Mon DD", "DD", "Wd", "Weekday HH:MM", "Mon YYYY",
-            "HH:MM:SS.ffffff", "DD Mon", "YYYY-MM-DD", "Wd Month",
+            "HH:MM:SS.ffffff", "DD Mon", "YYYY-MM-DD", "Wd DD Mon",
+            "Wd Month",
             "Wd Mon YYYY", "Wd Month HH:MM"]
 
 
@@ -329,6 +330,10 @@ def render_partial(kind, f):
         return "%04d-%02d-%02d" % (y, m, d), {"year", "month", "day"}
     # a weekday together with a month (and year) but no day number: the
     # default's day is clipped to that month first, then moved forward
+    if kind == "Wd DD Mon":
+        # a weekday next to a day number: the day wins, nothing is moved
+        return "%s %02d %s" % (R.WD3[wd], d, mon), {"weekday", "month",
+                                                    "day"}
     if kind == "Wd Month":
         return "%s %s" % (R.WDF[wd], R.MONTHSF[m - 1]), {"weekday", "month"}
     if kind == "Wd Mon YYYY":
